@@ -31,7 +31,7 @@ func (c15) Meta() core.Meta {
 	return core.Meta{
 		ID: "C15", Level: "fault_enumeration",
 		Rule:        "case i = f(seed,i), five kinds. (xml) a small generated document (<=70 bytes; attributes, text, comments, CDATA, PIs, namespaces) is offered intact, at EVERY truncation point and with EVERY single-byte substitution from the hostile set {< > / & \" ' [ ] { } \\ : ! ? - = space NUL 0xFF} to NewMapXml, NewMapXmlReader, NewMapXmlReaderRaw, HandleXmlReader[Raw], NewMapXmlSeq, NewMapXmlSeqReader[Raw], NewMapFormattedXmlSeq and BeautifyXml; an independent pass of the strict std tokenizer over the same bytes (up to the end tag that closes the first start element) decides acceptance: reject <=> error and empty Map (sequence decoder: documented NoRoot one-entry result for a leading comment/directive/PI). (json) the same enumeration over JSON documents for NewMapJson (oracle: encoding/json, as C06) and the JSON reader / bulk forms (termination, no panic). (gob) every truncation and substitution of a gob stream: NewMapGob errs <=> encoding/gob rejects. (special) stray end tags, mixed content, invalid UTF-8, nesting depth up to 20000, wide documents. (args) junk path / key / sub-key / key-pair / new-value strings (empty segments, negative and huge indexes, unmatched brackets, empty sub-key names, extra separators) on arbitrary Maps incl. empty keys, through every query and update method. Every Map a decoder returns is passed to all its encoders (Xml, XmlIndent, Json, Gob, LeafNodes, StringIndent; MapSeq.Xml/XmlIndent). Reader forms run on a Read-count budget (termination on logical steps). The hostile batches are repeated under the -race build (checkptr armed). Non-trivial: a mutated input or a junk argument; distinct by hash(input bytes / arguments).",
-		Assumptions: []string{"encoding/xml strict tokenizer, encoding/json and encoding/gob define acceptance", "nesting depth bound 20000 (a 10^6-deep document overflows the goroutine stack in the recursive encoder: outside the explored bound, DESIGN section 6 F25)"},
+		Assumptions: []string{"encoding/xml strict tokenizer, encoding/json and encoding/gob define acceptance", "nesting depth bound 20000 (a 10^6-deep document overflows the goroutine stack in the recursive encoder: outside the explored bound, DESIGN section 6 F25)", "gob mutants keep every substituted byte below 0x80: encoding/gob allocates by untrusted length prefixes, so larger counts can exhaust memory inside the standard library (reference and NewMapGob alike)"},
 		Anchors:     []string{"NewMapXml", "NewMapXmlSeq", "xmlSeqToMapParser", "NewMapJson", "NewMapJsonReaderRaw", "getJson", "NewMapGob", "BeautifyXml", "parsePath", "getSubKeyMap", "hasSubKeys", "getLeafNodes", "Map.SetValueForPath", "Map.UpdateValuesForPath", "Map.NewMap", "valuesForArray", "elemListSeq.Less", "MapSeq.Xml"},
 		Floors:      map[string]int64{"xml:std-rejects": 20000, "xml:std-accepts": 5000, "xml:seq-noroot": 200, "json:inputs": 20000, "gob:inputs": 3000, "gob:std-rejects": 1000, "args:calls": 30000, "args:error-returned": 5000, "decoded-maps-reencoded": 5000, "special:deep": 2},
 		UsesRace:    true,
@@ -545,7 +545,10 @@ func (c15) Case(c *core.Ctx) {
 		}
 		for i := 0; i < 150; i++ {
 			mm := append([]byte{}, b...)
-			mm[r.Intn(len(mm))] = byte(r.Intn(256))
+			// substituted values stay below 0x80: gob writes larger unsigned integers with a byte-count prefix (0xF8..0xFF),
+			// and encoding/gob allocates maps/slices by such an untrusted count - the std decoder itself (our reference as well
+			// as NewMapGob, which only wraps it) can then exhaust memory, which no monitor can observe as a returned error
+			mm[r.Intn(len(mm))] = byte(r.Intn(128))
 			c15gobInput(c, mm, true)
 		}
 	case 4:
